@@ -225,13 +225,14 @@ fn rerun_case(c: &RerunCase, max_sched: usize, free_runs: usize) -> (Vec<Violati
         }
         idx += 1;
     }
-    // free-running re-runs (no schedule: fresh random hash seeds per process) for hash iterations
+    // one re-run per hash seed (getrandom shim: all hash iteration orders of the process follow the seed)
     // that are not behind a hook site, e.g. the type_mappings map feeding the config hash
     let free = if c.dup { free_runs * 3 } else if c.n_map >= 2 || c.n_files >= 2 { free_runs } else { 0 };
     for k in 0..free {
         set_mtimes_past(&od);
         let before = stat_dir(&od);
-        let r = sbx::run_generate(&sb.root, c.seam, &RunOpts::default());
+        // hash seed k: every hash iteration order of the process is a function of it (getrandom shim)
+        let r = sbx::run_generate(&sb.root, c.seam, &RunOpts { hash_seed: Some(k as u64), ..Default::default() });
         let after = stat_dir(&od);
         let t = touched(&before, &after);
         outcomes.push(format!("free:{}|touched={}", r.status_string(), t.len()));
@@ -241,7 +242,7 @@ fn rerun_case(c: &RerunCase, max_sched: usize, free_runs: usize) -> (Vec<Violati
                     "C14",
                     "needless-rewrite",
                     format!(
-                        "{} files, {} type mappings, {} mode, {}: unchanged non-forced re-run #{} in a fresh process (fresh hash seeds, identity schedule at hooked sites) -> {}; touched: {}",
+                        "{} files, {} type mappings, {} mode, {}: unchanged non-forced re-run in a process with hash seed {} (identity schedule at hooked sites) -> {}; touched: {}",
                         c.n_files, c.n_map, cfg.mode_name(), c.seam.name(), k, r.status_string(), t.join(", ")
                     ),
                     json!({"kind":"rerun","n_files":c.n_files,"n_map":c.n_map,"zod":c.zod,"seam":c.seam.name(),"dup":c.dup,"choice":"free"}),
@@ -251,7 +252,7 @@ fn rerun_case(c: &RerunCase, max_sched: usize, free_runs: usize) -> (Vec<Violati
                 .field("files", c.n_files.to_string())
                 .field("mappings", c.n_map.to_string())
                 .field("duplicate_type_name", c.dup.to_string())
-                .field("deviating_sites", "unhooked(fresh-seed)")
+                .field("deviating_sites", "unhooked(hash-seed)")
                 .rank((c.n_files * 10 + c.n_map) as u64),
             );
             break;
@@ -422,7 +423,7 @@ pub fn run(tier: Tier) -> CheckResult {
             }
         }
     }
-    // a type name defined twice (hooked orders of the 1+2 / 2+2 files, then fresh processes)
+    // a type name defined twice (hooked orders of the 1+2 / 2+2 files, then one process per hash seed)
     for n_files in [1usize, 2] {
         for seam in [Seam::Cli, Seam::Build] {
             cases.push(RerunCase { n_files, n_map: 0, zod: n_files == 2, seam, dup: true });
@@ -524,9 +525,9 @@ pub fn run(tier: Tier) -> CheckResult {
         {"kind":"force","cache":"Matching","file_force":false,"flag":true,"seam":"cli"},
         {"kind":"force","cache":"Corrupt","file_force":true,"flag":false,"seam":"build"}
     ]));
-    res.coverage.set("rule", format!("re-run: projects of 1..{} files x 0..{} type mappings x modes x seams (plus projects in which two files define a type of the same name, re-run in 3x as many fresh processes); first run under the identity order, then one unchanged non-forced run of the real binary/build path per iteration order of every hook site the second process consults (full product), with all output mtimes set to a fixed past instant beforehand; oracle: no file's bytes or mtime change, none created or deleted. Since the property requires the cache decision to be independent of the order, identity x all-orders is equivalent to all pairs. Force matrix: cache state x file force x flag x seam x mode x configuration source (standalone typegen.json / plugins.typegen of a discovered tauri.conf.json). A re-run case is non-trivial when the second process consulted a hook site with >= 2 elements.", max_files, max_map));
+    res.coverage.set("rule", format!("re-run: projects of 1..{} files x 0..{} type mappings x modes x seams (plus projects in which two files define a type of the same name, re-run under 3x as many hash seeds); first run under the identity order, then one unchanged non-forced run of the real binary/build path per iteration order of every hook site the second process consults (full product), with all output mtimes set to a fixed past instant beforehand; oracle: no file's bytes or mtime change, none created or deleted. Since the property requires the cache decision to be independent of the order, identity x all-orders is equivalent to all pairs. Force matrix: cache state x file force x flag x seam x mode x configuration source (standalone typegen.json / plugins.typegen of a discovered tauri.conf.json). A re-run case is non-trivial when the second process consulted a hook site with >= 2 elements.", max_files, max_map));
     res.assumptions = vec![
-        "hash-iteration orders are owned through verif-hooks sites S1 (file list) and S9 (type_mappings in the config hash); other hash iterations are only covered by the processes' fresh random seeds".into(),
+        "hash-iteration orders are owned through the verif-hooks site S1 (file list), explored as a complete product; every other hash iteration of the second process is owned through its hash seeds (getrandom shim, seeds 0..8 quick / 0..24 thorough, three times as many for the duplicate-type-name projects): a deterministic, replayable seed alphabet, not a complete order product".into(),
     ];
     res
 }
